@@ -98,7 +98,7 @@ pub fn run_case(case: &EnumCase, report: &mut Report, property: &str) -> Option<
         }
     }
     // the same enumeration through the iterator adaptors of std: nth/skip/step_by/take/last/count
-    if outcome.is_ok() && !overflow && expected_total > 0 && expected_total <= 12_000 {
+    if outcome.is_ok() && !overflow && expected_total > 0 && expected_total <= 12_000 && st.deals_considered <= 150_000 {
         adaptor_agreement(case, &cfg, &ranges, report);
     }
     if property == "C02" && st.deals_considered == 0 && product > 0 {
